@@ -345,7 +345,7 @@ def unit_reuse(ctx):
     every public route (valid setter, in-place writes into field.valid / field.array, array setter), then it is
     differentiated again with the same arguments.  The second result must be the derivative of the field as it is now:
     equal to what a fresh field with the current values and validity gives."""
-    L = ctx.choose("L", [4, 6, 7])
+    L = ctx.choose("L", [4, 6, 7] if ctx.tier == "quick" else [3, 4, 5, 6, 7, 9, 12])
     order = ctx.choose("order", [1, 2])
     periodic = ctx.choose("periodic", [False, True])
     restrict = ctx.choose("restrict2valid", [True, False])
@@ -353,7 +353,7 @@ def unit_reuse(ctx):
     nd = ctx.choose("ndim", [1, 2])
     pat0 = (1 << L) - 1
     valid0 = [True] * L
-    valid1 = [bool((0b1011011 >> i) & 1) for i in range(L)]   # runs of length 2, 2, 1 ...
+    valid1 = [bool((0b110111011011 >> i) & 1) for i in range(L)]   # runs of length 2, 2, 3 ...
     probes = np.stack([C.tracer((L,), 1, ctx.seed)[:, 0], (np.arange(L) + 0.25) ** 2], axis=1)
     if nd == 1:
         f = _build(L, valid0, 0.5, periodic, probes)
